@@ -182,6 +182,12 @@ fn document_case(class: &str, pos: &str, k: usize) -> Option<Lr> {
             s += &format!(" fragment F{k} on Query {{ int }}");
             lr(s)
         }
+        ("frag_chain", "unused") => {
+            let mut s = String::from("{ int }");
+            for i in 0..k { s += &format!(" fragment F{i} on Query {{ ...F{} }}", i + 1); }
+            s += &format!(" fragment F{k} on Query {{ int }}");
+            lr(s)
+        }
         ("frag_cycle", "spread") => {
             let mut s = String::from("{ ...F0 }");
             for i in 0..k { s += &format!(" fragment F{i} on Query {{ ...F{} }}", (i + 1) % k); }
@@ -256,7 +262,7 @@ fn document_case(class: &str, pos: &str, k: usize) -> Option<Lr> {
             let (ty, kind) = p.split_once(':')?;
             let (gty, field) = type_of(ty)?;
             let v = kind_json(kind)?;
-            if ty == "upload" { lrv("mutation($v: Upload) { upload(file: $v) }", format!("{{\"v\":{v}}}")) }
+            if ty == "upload" { lrv("mutation($v: Upload!) { upload(file: $v) }", format!("{{\"v\":{v}}}")) }
             else { lrv(format!("query($v: {gty}) {{ {field}(a: $v) }}"), format!("{{\"v\":{v}}}")) }
         }
         ("bad_document", p) => lr(match p {
